@@ -630,4 +630,161 @@ theorem pruneOne_ok {K : Type} (z : K) (a : PruneArgs) (st : PruneSt K) (irep : 
   · intro j hj
     show (st.xprune.setIfInBounds irep _).getD j 0 = _
     rw [getD_setIfInBounds, if_neg (fun hh => hj hh.1.symm)]
+
+/-! ### dcopy_to_ucol.c -/
+
+theorem segList_succ (ls : Array Nat) (first n : Nat) :
+    segList ls first (n+1) = ls.getD first 0 :: segList ls (first+1) n := by
+  simp only [segList, List.range_succ_eq_map, List.map_cons, List.map_map, Nat.add_zero]
+  congr 1
+  apply List.map_congr_left; intro t _; simp only [Function.comp]; congr 1; omega
+
+/-- invariant of the gather loops of dcopy_to_ucol.c: `R` = the rows gathered so far, in order -/
+structure UcolInv {K : Type} (z : K) (permR : Array Int) (nextu0 : Nat) (usub0 : Array Int) (ucol0 dense0 : Array K)
+    (st : UcolSt K) (R : List Nat) : Prop where
+  nextu : st.nextu = nextu0 + R.length
+  szU : st.usub.size = usub0.size
+  szC : st.ucol.size = ucol0.size
+  szD : st.dense.size = dense0.size
+  usub : ∀ t, t < R.length → st.usub.getD (nextu0 + t) 0 = permR.getD (R.getD t 0) EMPTY
+  ucol : ∀ t, t < R.length → st.ucol.getD (nextu0 + t) z = if R.getD t 0 ∈ R.take t then z else dense0.getD (R.getD t 0) z
+  dense : ∀ r, st.dense.getD r z = if r ∈ R then z else dense0.getD r z
+  frame : ∀ k, k < nextu0 ∨ nextu0 + R.length ≤ k → st.usub.getD k 0 = usub0.getD k 0 ∧ st.ucol.getD k z = ucol0.getD k z
+
+theorem ucolInv_push {K : Type} (z : K) (permR : Array Int) (nextu0 : Nat) (usub0 : Array Int) (ucol0 dense0 : Array K)
+    (st : UcolSt K) (R : List Nat) (irow : Nat) (h : UcolInv z permR nextu0 usub0 ucol0 dense0 st R)
+    (hr : irow < dense0.size) (hu : nextu0 + R.length < usub0.size) (hc : nextu0 + R.length < ucol0.size) :
+    UcolInv z permR nextu0 usub0 ucol0 dense0
+      { nextu := st.nextu + 1, usub := st.usub.setIfInBounds st.nextu (permR.getD irow EMPTY),
+        ucol := st.ucol.setIfInBounds st.nextu (st.dense.getD irow z), dense := st.dense.setIfInBounds irow z } (R ++ [irow]) := by
+  have hn := h.nextu
+  refine ⟨by simp [hn]; omega, by simp [h.szU], by simp [h.szC], by simp [h.szD], ?_, ?_, ?_, ?_⟩
+  · intro t ht
+    simp only [List.length_append, List.length_singleton] at ht
+    show (st.usub.setIfInBounds st.nextu _).getD _ _ = _
+    rw [getD_setIfInBounds]
+    by_cases e : t = R.length
+    · subst e; rw [if_pos ⟨hn, by rw [h.szU, hn]; exact hu⟩]; simp [List.getD_eq_getElem?_getD]
+    · have ht' : t < R.length := by omega
+      rw [if_neg (by rw [hn]; omega), h.usub t ht']
+      simp [List.getD_eq_getElem?_getD, List.getElem?_append_left ht']
+  · intro t ht
+    simp only [List.length_append, List.length_singleton] at ht
+    show (st.ucol.setIfInBounds st.nextu _).getD _ _ = _
+    rw [getD_setIfInBounds]
+    by_cases e : t = R.length
+    · subst e; rw [if_pos ⟨hn, by rw [h.szC, hn]; exact hc⟩, h.dense]
+      simp [List.getD_eq_getElem?_getD]
+    · have ht' : t < R.length := by omega
+      rw [if_neg (by rw [hn]; omega), h.ucol t ht']
+      have e1 : (R ++ [irow]).getD t 0 = R.getD t 0 := by simp [List.getD_eq_getElem?_getD, List.getElem?_append_left ht']
+      have e2 : (R ++ [irow]).take t = R.take t := by rw [List.take_append_of_le_length (by omega)]
+      rw [e1, e2]
+  · intro r
+    show (st.dense.setIfInBounds irow z).getD r z = _
+    rw [getD_setIfInBounds, h.dense]
+    simp only [List.mem_append, List.mem_singleton]
+    by_cases e : irow = r
+    · subst e; rw [if_pos ⟨rfl, by rw [h.szD]; exact hr⟩, if_pos (Or.inr rfl)]
+    · rw [if_neg (fun hh => e hh.1)]
+      by_cases e2 : r ∈ R
+      · rw [if_pos e2, if_pos (Or.inl e2)]
+      · rw [if_neg e2, if_neg (by rintro (h1 | h1); exact e2 h1; exact e h1.symm)]
+  · intro k hk
+    simp only [List.length_append, List.length_singleton] at hk
+    show (st.usub.setIfInBounds st.nextu _).getD k 0 = _ ∧ (st.ucol.setIfInBounds st.nextu _).getD k z = _
+    rw [getD_setIfInBounds, getD_setIfInBounds, if_neg (by rw [hn]; omega), if_neg (by rw [hn]; omega)]
+    exact h.frame k (by omega)
+
+theorem copySeg_inv {K : Type} (z : K) (permR : Array Int) (lsub : Array Nat) (nextu0 : Nat) (usub0 : Array Int) (ucol0 dense0 : Array K) :
+    ∀ (n isub : Nat) (st : UcolSt K) (R : List Nat), UcolInv z permR nextu0 usub0 ucol0 dense0 st R →
+      (∀ r ∈ segList lsub isub n, r < dense0.size) → nextu0 + R.length + n ≤ usub0.size → nextu0 + R.length + n ≤ ucol0.size →
+      UcolInv z permR nextu0 usub0 ucol0 dense0 (copySeg z permR lsub n isub st) (R ++ segList lsub isub n) := by
+  intro n
+  induction n with
+  | zero => intro isub st R h _ _ _; simpa [copySeg, segList] using h
+  | succ n ih =>
+    intro isub st R h hr hu hc
+    rw [copySeg, segList_succ]
+    rw [segList_succ] at hr
+    have h1 := ucolInv_push z permR nextu0 usub0 ucol0 dense0 st R (lsub.getD isub 0) h
+      (hr _ (List.mem_cons_self ..)) (by omega) (by omega)
+    have := ih (isub+1) _ (R ++ [lsub.getD isub 0]) h1 (fun r hr' => hr r (List.mem_cons_of_mem _ hr'))
+      (by simp; omega) (by simp; omega)
+    simpa [List.append_assoc] using this
+
+/-- the rows of the U-segment of `krep` (`lsub[isub .. isub+segsze)`, dcopy_to_ucol.c:80-82), `[]` when it is skipped -/
+def ucolRows (a : UcolArgs) (krep : Nat) : List Nat :=
+  if ucolKeeps a krep then
+    segList a.lsub (a.xlsub.getD (a.xsup.getD (a.supno.getD krep 0).toNat 0) 0 + (a.repfnz.getD krep EMPTY).toNat
+        - a.xsup.getD (a.supno.getD krep 0).toNat 0) (krep - (a.repfnz.getD krep EMPTY).toNat + 1)
+  else []
+
+/-- all rows gathered by the call, in order: segments in the order `segrep[nseg-1], …, segrep[0]` -/
+def ucolAllRows (a : UcolArgs) : List Nat :=
+  (List.range a.nseg).flatMap (fun ksub => ucolRows a (a.segrep.getD (a.nseg - 1 - ksub) 0))
+
+theorem ucolStep_inv {K : Type} (z : K) (a : UcolArgs) (nextu0 : Nat) (usub0 : Array Int) (ucol0 dense0 : Array K)
+    (st : UcolSt K) (R : List Nat) (ksub : Nat) (h : UcolInv z a.permR nextu0 usub0 ucol0 dense0 st R)
+    (hr : ∀ r ∈ ucolRows a (a.segrep.getD (a.nseg - 1 - ksub) 0), r < dense0.size)
+    (hu : nextu0 + R.length + (ucolRows a (a.segrep.getD (a.nseg - 1 - ksub) 0)).length ≤ usub0.size)
+    (hc : nextu0 + R.length + (ucolRows a (a.segrep.getD (a.nseg - 1 - ksub) 0)).length ≤ ucol0.size) :
+    UcolInv z a.permR nextu0 usub0 ucol0 dense0 (ucolStep z a st ksub) (R ++ ucolRows a (a.segrep.getD (a.nseg - 1 - ksub) 0)) := by
+  unfold ucolStep ucolRows at *
+  dsimp only at *
+  generalize a.segrep.getD (a.nseg - 1 - ksub) 0 = krep at *
+  by_cases hk : ucolKeeps a krep = true
+  · simp only [hk, Bool.not_true, Bool.false_eq_true, if_false, if_true] at hr hu hc ⊢
+    rw [segList_length] at hu hc
+    exact copySeg_inv z a.permR a.lsub nextu0 usub0 ucol0 dense0 _ _ st R h hr hu hc
+  · have hk' : ucolKeeps a krep = false := by simpa using hk
+    simp only [hk', Bool.not_false, if_true, Bool.false_eq_true, if_false, List.append_nil]
+    exact h
+
+theorem ucolFold_inv {K : Type} (z : K) (a : UcolArgs) (nextu0 : Nat) (usub0 : Array Int) (ucol0 dense0 : Array K) :
+    ∀ (ks : List Nat) (st : UcolSt K) (R : List Nat), UcolInv z a.permR nextu0 usub0 ucol0 dense0 st R →
+      (∀ r ∈ ks.flatMap (fun ksub => ucolRows a (a.segrep.getD (a.nseg - 1 - ksub) 0)), r < dense0.size) →
+      nextu0 + R.length + (ks.flatMap (fun ksub => ucolRows a (a.segrep.getD (a.nseg - 1 - ksub) 0))).length ≤ usub0.size →
+      nextu0 + R.length + (ks.flatMap (fun ksub => ucolRows a (a.segrep.getD (a.nseg - 1 - ksub) 0))).length ≤ ucol0.size →
+      UcolInv z a.permR nextu0 usub0 ucol0 dense0 (ks.foldl (ucolStep z a) st)
+        (R ++ ks.flatMap (fun ksub => ucolRows a (a.segrep.getD (a.nseg - 1 - ksub) 0))) := by
+  intro ks
+  induction ks with
+  | nil => intro st R h _ _ _; simpa using h
+  | cons k ks ih =>
+    intro st R h hr hu hc
+    simp only [List.flatMap_cons, List.length_append, List.mem_append] at hr hu hc
+    have h1 := ucolStep_inv z a nextu0 usub0 ucol0 dense0 st R k h (fun r hr' => hr r (Or.inl hr')) (by omega) (by omega)
+    have := ih _ _ h1 (fun r hr' => hr r (Or.inr hr')) (by simp only [List.length_append]; omega) (by simp only [List.length_append]; omega)
+    simpa [List.append_assoc] using this
+
+/-- decidable well-formedness of a call of `copyToUcol`: capacity suffices, the gathered rows index `dense` -/
+structure UcolWf (a : UcolArgs) (xusub : Array Nat) (usubSize ucolSize denseSize : Nat) : Prop where
+  capU : xusub.getD a.jcol 0 + (ucolAllRows a).length ≤ usubSize
+  capC : xusub.getD a.jcol 0 + (ucolAllRows a).length ≤ ucolSize
+  rows : ∀ r ∈ ucolAllRows a, r < denseSize
+  xu : a.jcol + 1 < xusub.size
+
+instance (a : UcolArgs) (xusub : Array Nat) (s1 s2 s3 : Nat) : Decidable (UcolWf a xusub s1 s2 s3) :=
+  decidable_of_iff (xusub.getD a.jcol 0 + (ucolAllRows a).length ≤ s1 ∧ xusub.getD a.jcol 0 + (ucolAllRows a).length ≤ s2 ∧
+      (∀ r ∈ ucolAllRows a, r < s3) ∧ a.jcol + 1 < xusub.size)
+    ⟨fun ⟨a, b, c, d⟩ => ⟨a, b, c, d⟩, fun ⟨a, b, c, d⟩ => ⟨a, b, c, d⟩⟩
+
+theorem copyToUcol_inv {K : Type} (z : K) (a : UcolArgs) (xusub : Array Nat) (usub : Array Int) (ucol dense : Array K)
+    (h : UcolWf a xusub usub.size ucol.size dense.size) :
+    UcolInv z a.permR (xusub.getD a.jcol 0) usub ucol dense (copyToUcol z a xusub usub ucol dense).1 (ucolAllRows a) ∧
+    (copyToUcol z a xusub usub ucol dense).2.getD (a.jcol+1) 0 = xusub.getD a.jcol 0 + (ucolAllRows a).length ∧
+    (∀ k, k ≠ a.jcol + 1 → (copyToUcol z a xusub usub ucol dense).2.getD k 0 = xusub.getD k 0) := by
+  have h0 : UcolInv z a.permR (xusub.getD a.jcol 0) usub ucol dense
+      { nextu := xusub.getD a.jcol 0, usub := usub, ucol := ucol, dense := dense } [] :=
+    ⟨rfl, rfl, rfl, rfl, fun t ht => by simp at ht, fun t ht => by simp at ht, fun r => by simp, fun _ _ => ⟨rfl, rfl⟩⟩
+  have := ucolFold_inv z a (xusub.getD a.jcol 0) usub ucol dense (List.range a.nseg) _ [] h0 h.rows
+    (by have := h.capU; simp only [List.length_nil, Nat.add_zero]; exact this) (by have := h.capC; simp only [List.length_nil, Nat.add_zero]; exact this)
+  rw [List.nil_append] at this
+  refine ⟨this, ?_, ?_⟩
+  · show (xusub.setIfInBounds _ _).getD _ _ = _
+    rw [getD_setIfInBounds, if_pos ⟨rfl, h.xu⟩]; exact this.nextu
+  · intro k hk
+    show (xusub.setIfInBounds _ _).getD _ _ = _
+    rw [getD_setIfInBounds, if_neg (fun hh => hk hh.1.symm)]
 end Slu.SymbArr
